@@ -74,10 +74,11 @@ def main():
                                                       str(e)[:200]))))
             return
     # backtracking probe: time must not explode with the input length
-    for q in ('"', "'", '`'):
+    for q, fill in [(q, f) for q in ('"', "'", '`')
+                    for f in ('\\', 'a', 'a\\\\', ' ')]:
         prev = None
-        for n in (12, 16, 20, 24):
-            text = q + '\\' * n
+        for n in (12, 16, 20, 24, 28):
+            text = q + fill * n
             t0 = time.time()
             try:
                 engine(text)
@@ -92,7 +93,7 @@ def main():
                 print(json.dumps(dict(
                     status='failed', text=text, seconds=round(dt, 2),
                     detail='matching time grows exponentially with the '
-                           'number of backslashes after an unterminated '
+                           'number of characters after an unterminated '
                            'quote')))
                 return
     print(json.dumps(dict(status='ok', texts=len(texts))))
